@@ -44,7 +44,9 @@ impl OpeningHoursExpression {
             return kind == RuleKind::Closed;
         };
 
-        tail.kind == kind && tail.is_constant()
+        // A fallback rule only applies on days that no other rule matched: it cannot make the
+        // whole expression constant.
+        tail.kind == kind && tail.is_constant() && tail.operator != RuleOperator::Fallback
     }
 
     /// Convert the expression into a normalized form. It will not affect the meaning of the
